@@ -107,6 +107,9 @@ class ResourceManager:
                                      +' below zero.')
                 self._resources[resource_name] = (in_use, max_available + amount)
             except KeyError:
+                if amount < 0:
+                    raise ValueError(f'Cannot reduce amount of available resource {resource_name}'
+                                     +' below zero.')
                 self._resources[resource_name] = (0.0, amount)
 
         if self._env != None:
